@@ -118,6 +118,9 @@ func (vm *VM) convertPanic(msg any) error {
 	switch err := msg.(type) {
 	case stopError:
 		return err
+	case *PanicError:
+		// A panic not recovered by a function called through its Go value.
+		return err
 	case outError:
 		return vm.newPanic(err)
 	}
